@@ -1,4 +1,5 @@
 import PromModel.Tsdb.HistLayout
+import PromModel.Tsdb.HistMem
 /-
   Suite `hist` (property C11): layout functions, chunk appenders and the head's histogram path.
   See harness/suites/hist/main.go for the op grammar.  The string layer is thin; everything of
@@ -10,6 +11,13 @@ import PromModel.Tsdb.HistLayout
   count, sum and the same count in every bucket (`Hist.sem`); the caller's histogram is semantically
   unchanged (and keeps its hint); plus the C12 predicate on every read stream, and the statement of
   `expand_sound` on the outputs of the layout hooks.
+
+  alias ops (`amem`/`aapp`, see the harness): the caller's histograms are views into shared arrays
+  (`Prom.Hist.Mem`/`HView`, PromModel/Tsdb/HistMem.lean); the model is `appendMem`; the judge evaluates the
+  frame statement of `caller_memory_frame` on what the harness observed in the real memory: no cell of the
+  caller's arrays was written (`mem=-`), no other histogram held by the caller changed (`held=-`), the
+  appended one means the same.  `ascr`: the caller overwrites all its arrays (it owns them); the chunks must
+  not depend on them — what follows (appends from fresh memory, reads) is judged as before.
 -/
 namespace Prom.HistSuite
 open Prom.Hist
@@ -83,6 +91,36 @@ def parseSamples? (s : String) : Option (List (Int × Hist)) :=
     | [t, h] => do pure (← t.toInt?, ← parseHist? h)
     | _ => none
 
+/-- `off+len+cap`, `-` = nil -/
+def parseSlice? (s : String) : Option (Option Slice) :=
+  if s = "-" then some none else
+  match s.splitOn "+" with
+  | [a, b, c] => do pure (some ⟨← a.toNat?, ← b.toNat?, ← c.toNat?⟩)
+  | _ => none
+
+/-- a histogram token whose five slice fields are slice headers into the arenas of `amem` -/
+def parseView? (tok : String) : Option HView :=
+  match tok.splitOn "/" with
+  | [fl, hint, schema, zt, cnt, zc, sum, ps, ns, pb, nb, cv] => do
+    let float ← (if fl = "f" then some true else if fl = "i" then some false else none)
+    let hint ← hintOfNum? (← hint.toNat?)
+    let count ← (if float then natOfHex? cnt else cnt.toNat?)
+    let zcount ← (if float then natOfHex? zc else zc.toNat?)
+    pure { float, hint, schema := ← schema.toInt?, zt := ← natOfHex? zt, count, zcount, sum := ← natOfHex? sum,
+           pS := ← parseSlice? ps, nS := ← parseSlice? ns, pB := ← parseSlice? pb, nB := ← parseSlice? nb,
+           cv := ← parseSlice? cv }
+  | _ => none
+
+/-- `amem <st> <spans> <ints> <floats>` -/
+def parseMem? (sp is fs : String) : Option Mem := do
+  pure { spans := ← parseSpans? sp, ints := ← parseIntList? is, floats := (← hexList? fs).map Int.ofNat }
+
+def cellsStr (m m' : Mem) : String :=
+  let l := (cellDiff 0 m.spans m'.spans).map (fun p => s!"s{p.1}:{p.2.offset}:{p.2.length}") ++
+           (cellDiff 0 m.ints m'.ints).map (fun p => s!"i{p.1}:{p.2}") ++
+           (cellDiff 0 m.floats m'.floats).map (fun p => s!"f{p.1}:{hex16 p.2.toNat}")
+  if l.isEmpty then "-" else ",".intercalate l
+
 def hdrNum : Hdr → Nat
   | .unknown => 0 | .notReset => 64 | .reset => 128 | .gauge => 192
 
@@ -98,6 +136,8 @@ structure St where
   admitted : List (Int × Hist) := []
   series : Series := Series.empty
   failed : Bool := false
+  /-- alias ops: the caller's heap -/
+  mem : Mem := ⟨[], [], []⟩
 deriving Inhabited
 
 def chunkStart (c : Chunk) : Option Int := c.rev.getLast?.map (·.t)
@@ -175,6 +215,29 @@ def step (st : St) (line : String) : St × String :=
             let cs := if r.out = .newChunk then r.chunk :: c :: older else r.chunk :: older
             ({ st with chunks := cs }, s!"{outcomeStr r.out} hdr={hdrNum r.chunk.hdr} n={r.chunk.num} caller={histStr r.h}")
     | _, _ => (st, "bad-op")
+  | ["amem", _, sp, is, fs] =>
+    match parseMem? sp is fs with
+    | some m => ({ st with mem := m }, "ok")
+    | none => (st, "bad-op")
+  | ["aapp", cut, _, t, vw] =>
+    match t.toInt?, parseView? vw with
+    | some t, some v =>
+      if !v.inB st.mem then (st, "bad-view") else
+      let fresh : Bool := match st.chunks with
+        | [] => true
+        | c :: _ => cut = "1" || c.float != v.float
+      let prev := if fresh then st.chunks.head? else none
+      let cur := if fresh then Chunk.empty v.float else st.chunks.head?.getD (Chunk.empty v.float)
+      match appendMem st.mem prev cur t v with
+      | .error _ => (st, "panic")
+      | .ok (m', v', r) =>
+        let cs := if fresh || r.out = .newChunk then r.chunk :: st.chunks else r.chunk :: st.chunks.drop 1
+        -- `held=-`: by `caller_memory_frame` no view into the old cells can change when no old cell does
+        let diff := cellsStr st.mem m'
+        ({ st with chunks := cs, mem := m' },
+         s!"{outcomeStr r.out} hdr={hdrNum r.chunk.hdr} n={r.chunk.num} caller={histStr (m'.hist v')} mem={diff} held={if diff = "-" then "-" else "?"}")
+    | _, _ => (st, "bad-op")
+  | ["ascr"] => ({ st with mem := ⟨[], [], []⟩ }, "ok")
   | ["creload"] => (st, "ok")
   | ["cread"] => (st, chunkReadStr st.chunks)
   | ["hcfg", _] => (st, "ok")
@@ -292,6 +355,10 @@ def layoutVerdict (k : Nat) (f : List String) (out : String) : Option String :=
 structure JSt where
   capp : List (Int × Hist) := []
   happ : List (Int × Hist) := []
+  mem : Mem := ⟨[], [], []⟩
+
+def tokOf (pre : String) (out : String) : Option String :=
+  ((toks out).find? (·.startsWith pre)).map fun c => (c.drop pre.length).toString
 
 def verdict : JSt → Nat → List String → List String → Option String
   | _, _, [], _ => none
@@ -305,6 +372,27 @@ def verdict : JSt → Nat → List String → List String → Option String
         if out.startsWith "err" ∨ out.startsWith "panic" then some s!"violation append-failed op={k} {out}"
         else if !callerOk h out then some s!"violation caller-changed op={k}"
         else verdict { st with capp := (t, h) :: st.capp } (k + 1) ops outs
+      | _, _ => none
+    | ["amem", _, sp, is, fs] =>
+      match parseMem? sp is fs with
+      | some m => if out = "ok" then verdict { st with mem := m } (k + 1) ops outs else some s!"violation op-failed op={k} amem last=none {out}"
+      | none => none
+    | ["ascr"] =>
+      if out = "ok" then verdict { st with mem := ⟨[], [], []⟩ } (k + 1) ops outs
+      else some s!"violation op-failed op={k} ascr last=none {out}"
+    | ["aapp", _, _, t, vw] =>
+      match t.toInt?, parseView? vw with
+      | some t, some v =>
+        if !v.inB st.mem then verdict st (k + 1) ops outs else
+        let h := st.mem.hist v
+        if out.startsWith "err" ∨ out.startsWith "panic" ∨ out.startsWith "bad" then some s!"violation append-failed op={k} {out}"
+        else match tokOf "mem=" out, tokOf "held=" out with
+          | some "-", some "-" =>
+            if !callerOk h out then some s!"violation caller-changed op={k}"
+            else verdict { st with capp := (t, h) :: st.capp } (k + 1) ops outs
+          | some "-", some hs => some s!"violation held-changed op={k} hist={hs}"
+          | some cells, _ => some s!"violation caller-memory-written op={k} cells={cells}"
+          | none, _ => some s!"violation unparsable op={k}"
       | _, _ => none
     | ["cread"] =>
       let samples : Option (List (List (Int × Hist))) :=
